@@ -6,6 +6,7 @@ arguments under a different global seed s2 and receives A's state dict (strict, 
 a BytesIO).  Then both are driven through the same calls - a training-mode forward first (modules default to
 training mode after construction), then eval-mode forward / inverse / log_prob / sample under a common re-seed -
 and every result must be BIT-identical; the state dicts must still agree afterwards."""
+import copy
 import io
 
 import numpy as np
@@ -24,7 +25,7 @@ ASSUMPTIONS = ["single-threaded execution in one process makes bitwise compariso
                "same constructor arguments = same JSON config; only the global RNG seed differs"]
 REQUIRED_COUNTS = ["bitwise_comparisons", "models_reloaded", "byteio_roundtrips"]
 BUDGET = {"case_timeout": {"quick": 300, "thorough": 2400}}
-HIST = ["fresh", "train_steps", "data_init", "eval_calls"]
+HIST = ["fresh", "train_steps", "data_init", "eval_calls", "copied"]
 
 
 def gen_cases(tier, seed):
@@ -34,7 +35,7 @@ def gen_cases(tier, seed):
     for fam in zoo.ALL_FAMS:
         cfgs = zoo.configs([fam], tier, seed + 13, nrand)
         for ci, cfg in enumerate(cfgs):
-            cases.append({"kind": "transform", "cfg": cfg, "hist": HIST[ci % 4], "seed": env.subseed(seed, "c15", fam, ci),
+            cases.append({"kind": "transform", "cfg": cfg, "hist": HIST[ci % 5], "seed": env.subseed(seed, "c15", fam, ci),
                           "world": "f32" if ci % 3 == 0 else "f64", "cost": 6 if "umnn" in fam else 2})
     # extra weight on the random-structure families
     for i in range(30 if tier == "quick" else 3000):
@@ -46,7 +47,7 @@ def gen_cases(tier, seed):
             cfg["blocks"] = max(cfg["blocks"], 1)
         if fam == "permutation":
             cfg["kind"] = "random"
-        cases.append({"kind": "transform", "cfg": cfg, "hist": HIST[i % 4], "seed": env.subseed(seed, "c15r", i),
+        cases.append({"kind": "transform", "cfg": cfg, "hist": HIST[i % 5], "seed": env.subseed(seed, "c15r", i),
                       "world": "f64", "cost": 2})
     # stateful layers nested in containers (their state dict is loaded through the parent), every history
     nested = [
@@ -83,10 +84,10 @@ def gen_cases(tier, seed):
                 cases.append({"kind": "transform", "cfg": cfg, "hist": h, "seed": env.subseed(seed, "c15n", ni, hi), "eval_first": ef,
                               "world": "f64" if (ni + hi) % 2 else "f32", "cost": 2})
     for i in range(40 if tier == "quick" else 3000):
-        cases.append({"kind": "flow", "cfg": dzoo.sample_flow_cfg(rng), "hist": HIST[i % 4], "seed": env.subseed(seed, "c15f", i),
+        cases.append({"kind": "flow", "cfg": dzoo.sample_flow_cfg(rng), "hist": HIST[i % 5], "seed": env.subseed(seed, "c15f", i),
                       "world": "f64", "cost": 3})
     for i in range(30 if tier == "quick" else 2000):
-        cases.append({"kind": "dist", "cfg": dzoo.sample_dist_cfg(rng), "hist": HIST[i % 2], "seed": env.subseed(seed, "c15d", i),
+        cases.append({"kind": "dist", "cfg": dzoo.sample_dist_cfg(rng), "hist": [HIST[0], HIST[1], HIST[4]][i % 3], "seed": env.subseed(seed, "c15d", i),
                       "world": "f64", "cost": 1})
     return cases
 
@@ -220,6 +221,19 @@ def run_case(case):
                         p_.mul_(0.6)
                     else:
                         p_.add_(0.05 * torch.randn(p_.shape, generator=g_).to(p_.dtype))
+        elif hist == "copied":
+            # the model that is saved is a deep copy (an EMA / snapshot / target network) whose values moved on afterwards: it must
+            # be a model of its own - whatever it still shares with the object it was copied from shows against the reloaded one
+            A0 = A
+            A = copy.deepcopy(A0)
+            g_ = torch.Generator().manual_seed(seed + 3)
+            with torch.no_grad():
+                for n_, p_ in A.named_parameters():
+                    if n_.split(".")[-1] == "temperature":
+                        p_.mul_(0.8)
+                    else:
+                        p_.add_(0.05 * torch.randn(p_.shape, generator=g_).to(p_.dtype))
+            r.count("saved_from_a_deep_copy")
         elif hist == "data_init":
             A.train()
             with torch.no_grad():
